@@ -1251,6 +1251,93 @@ func ordFlat(w *World, r *EngineResult) {
 	}
 	r.Stats["builtin_class_registrations"] = n
 	r.floor("builtin_class_registrations", 1)
+
+	// consumers: a membership test on the short-name registry that redirects a class to the
+	// Builtin frame (the constant "Builtin" is assigned on its true edge) is only legitimate for
+	// an unqualified name: the same condition must test that the frame/namespace at hand is "".
+	nUse := 0
+	for _, fn := range w.Funcs {
+		ord := 0
+		for _, b := range fn.Blocks {
+			for _, ins := range b.Instrs {
+				call, ok := ins.(*ssa.Call)
+				if !ok || call.Call.StaticCallee() == nil || !strings.HasPrefix(call.Call.StaticCallee().String(), "slices.Contains") || len(call.Call.Args) < 2 {
+					continue
+				}
+				u, ok := call.Call.Args[0].(*ssa.UnOp)
+				if !ok {
+					continue
+				}
+				g, ok := u.X.(*ssa.Global)
+				if !ok || g.Name() != "BuiltinClasses" {
+					continue
+				}
+				iff, ok := b.Instrs[len(b.Instrs)-1].(*ssa.If)
+				if !ok || iff.Cond != ssa.Value(call) {
+					continue
+				}
+				// does the true edge lead (directly) to the constant "Builtin" being chosen?
+				tb := b.Succs[0]
+				redirects := false
+				isBuiltinConst := func(v ssa.Value) bool {
+					k, ok := v.(*ssa.Const)
+					return ok && constVal(k).k == kStr && constVal(k).s == "Builtin"
+				}
+				for _, ti := range tb.Instrs {
+					if st, ok := ti.(*ssa.Store); ok && isBuiltinConst(st.Val) {
+						redirects = true
+					}
+				}
+				for _, sb := range append([]*ssa.BasicBlock{tb}, tb.Succs...) {
+					for _, si := range sb.Instrs {
+						if ph, ok := si.(*ssa.Phi); ok {
+							for ei, e := range ph.Edges {
+								if isBuiltinConst(e) && (sb.Preds[ei] == tb || sb.Preds[ei] == b) {
+									redirects = true
+								}
+							}
+						}
+					}
+				}
+				if !redirects {
+					continue
+				}
+				nUse++
+				ord++
+				construct := fmt.Sprintf("redirect to the Builtin frame#%d", ord)
+				pos := w.pos(instrPos(call))
+				// an empty-string comparison in the same && chain: a dominating true edge of  x == ""  or the test in a successor
+				emptyTest := func(v ssa.Value) bool {
+					bo, ok := v.(*ssa.BinOp)
+					if !ok || bo.Op.String() != "==" {
+						return false
+					}
+					for _, o := range []ssa.Value{bo.X, bo.Y} {
+						if k, ok := o.(*ssa.Const); ok && constVal(k).k == kStr && constVal(k).s == "" {
+							return true
+						}
+					}
+					return false
+				}
+				guarded := false
+				if len(b.Preds) == 1 {
+					if pi, ok := b.Preds[0].Instrs[len(b.Preds[0].Instrs)-1].(*ssa.If); ok && b.Preds[0].Succs[0] == b && emptyTest(pi.Cond) {
+						guarded = true
+					}
+				}
+				if ti, ok := tb.Instrs[len(tb.Instrs)-1].(*ssa.If); ok && emptyTest(ti.Cond) && len(tb.Instrs) <= 3 {
+					guarded = true
+				}
+				if guarded {
+					r.holds("ORD-flat-use", fnKey(fn), construct, "the membership test is conjoined with a test that the frame or namespace at hand is empty: only unqualified names are redirected", pos)
+				} else {
+					r.violated("ORD-flat-use", fnKey(fn), construct, "a class is redirected to the Builtin frame because its short name is in the registry, without testing that it was written unqualified: a qualified user class (App::Util) that shares its short name with any configured class loses its own frame", pos)
+				}
+			}
+		}
+	}
+	r.Stats["builtin_frame_redirects"] = nUse
+	r.floor("builtin_frame_redirects", 3)
 }
 
 // ---- ORD-lastwins (C19) ----
